@@ -208,3 +208,20 @@ RULES = [
     ("C06.CANON", "every Num aggregate is canonical by construction or canonicalised before it escapes", rule_canon),
     ("C06.DISPLAY", "Display/Debug of Num", rule_display),
 ]
+
+
+def _c05(name):
+    def run(ctx, R):
+        from . import p_c05
+        return dict((r[0], r[2]) for r in p_c05.RULES)[name](ctx, R)
+    return run
+
+
+# rational arithmetic is only as exact as the integer arithmetic under it (shared with C05)
+RULES += [
+    ("C06.INT.SIGN", "BigNum sign dispatch of add/sub/mul/div/partial_cmp/eq/neg/minus", _c05("C05.SIGN")),
+    ("C06.INT.OPS", "BigNum operator impls, rem = a-(a/b)*b, Euclid step of gcd (used by Num::optimize)", _c05("C05.OPS")),
+    ("C06.INT.DIVLESS", "BigNum quotient search and magnitude comparison", _c05("C05.DIVLESS")),
+    ("C06.INT.LIMBS", "BigNum carry/borrow/partial-product loops conserve the value", _c05("C05.LIMBS")),
+]
+
